@@ -14,6 +14,11 @@ def _split_failures(run, fails, events, source):
             rec["op"] = ev.get("ev")
             if ev.get("ev") in ("box", "pair", "inccoord", "rt"):
                 rec["level"] = ev["a"][0]
+            if clause == "geo_tight":
+                # C15 asks for a non-empty tile box that COVERS the geographic box up to the guard; a box that is wider than
+                # necessary still does: an observation
+                run.observation("geo_tight", {"ev": ev})
+                continue
             run.failure(rec)
 
 
